@@ -23,6 +23,9 @@ def replay_gridded(args):
     from photutils.psf import GriddedPSFModel
     warnings.simplefilter('ignore')
     gx, gy = c['gx'], c['gy']
+    gs = [1.0, 1.0, 0.4, 1.0, 0.25][idx % 5]          # reference positions in other coordinate units (several of them inside one unit cell)
+    goff = -0.3 if idx % 5 == 4 else 0.0               # ... and straddling zero
+    gx, gy = [g * gs + goff for g in gx], [g * gs + goff for g in gy]
     nodes = [(i + 1, j + 1) for j in range(len(gy)) for i in range(len(gx))]
     rng = random.Random(idx)
     if idx % 2:
@@ -38,8 +41,8 @@ def replay_gridded(args):
         if idx % 3 == 1:
             # another model instance on the same grid with other ePSFs, evaluated at the same place first: instances are independent
             decoy = GriddedPSFModel(NDData(1000.0 - data[::-1], meta={'grid_xypos': xy, 'oversampling': ov}))
-            decoy.x_0, decoy.y_0 = c['x0'] / 2.0, c['y0'] / 2.0
-            decoy(np.array([[c['x0'] / 2.0]]), np.array([[c['y0'] / 2.0]]))
+            decoy.x_0, decoy.y_0 = c['x0'] / 2.0 * gs + goff, c['y0'] / 2.0 * gs + goff
+            decoy(np.array([[c['x0'] / 2.0 * gs + goff]]), np.array([[c['y0'] / 2.0 * gs + goff]]))
         fill = [0.0, 0, -1, 7.5][(idx // 2) % 4]          # float and integer-typed fill values
         model = GriddedPSFModel(NDData(data, meta={'grid_xypos': xy, 'oversampling': ov}), fill_value=fill)
         # earlier evaluations at other positions must not matter (cache keyed by grid position)
@@ -47,7 +50,7 @@ def replay_gridded(args):
             model.x_0, model.y_0 = gx[-1] - 0.3, gy[0] + 0.2
             model(np.array([[1.0]]), np.array([[1.0]]))
             model = model.copy() if idx % 8 == 0 else model
-        x0, y0, flux = c['x0'] / 2.0, c['y0'] / 2.0, 3.0
+        x0, y0, flux = c['x0'] / 2.0 * gs + goff, c['y0'] / 2.0 * gs + goff, 3.0
         model.x_0, model.y_0, model.flux = x0, y0, flux
         other = 1 if ov != 1 else 3
         if idx % 5 == 2:
